@@ -14,6 +14,7 @@ import (
 	"net"
 	"os"
 	"strings"
+	"time"
 	"testing/iotest"
 
 	"github.com/sqlc-dev/doubleclick/parser"
@@ -72,7 +73,30 @@ type result struct {
 	panicv  string
 }
 
+// watchdog: a Parse call that does not return is an observation (a lexer that stops advancing after a read failure spins
+// and allocates), not a harness that hangs until the check's timeout
+func guarded(what string, f func()) {
+	done := make(chan struct{})
+	go func() {
+		defer close(done)
+		f()
+	}()
+	select {
+	case <-done:
+	case <-time.After(120 * time.Second):
+		fmt.Fprintf(os.Stdout, "%s\t1\t1\tHANG: %s did not return within 120 s\n", hangInput, what)
+		os.Exit(3)
+	}
+}
+
+var hangInput = "-"
+
 func run(r io.Reader) (res result) {
+	guarded("parser.Parse", func() { res = run1(r) })
+	return
+}
+
+func run1(r io.Reader) (res result) {
 	defer func() {
 		if x := recover(); x != nil {
 			res.panicv = fmt.Sprint(x)
@@ -184,6 +208,8 @@ func main() {
 	r := &rng{s: *seed}
 	for in.Scan() {
 		line := in.Text()
+		hangInput = line
+		out.Flush()
 		var data []byte
 		if line != "-" {
 			var err error
@@ -286,6 +312,9 @@ func main() {
 				if pi%7 != 0 && k != len(data) && k > 2 {
 					continue
 				}
+				if bytes.IndexByte(data[:min(k, len(data))], 0) >= 0 {
+					continue // the lexer stops reading at a NUL byte: whether the failing Read is ever issued depends on the delivery
+				}
 				boom := errors.New("boom")
 				ref := run(&failing{data: data, k: k, err: boom})
 				for vi, v := range []struct {
@@ -343,14 +372,14 @@ func main() {
 								f.onFail = cancel
 								defer cancel()
 							}
-							func() {
+							guarded(fmt.Sprintf("parser.Parse with a reader failing at byte %d (error kind %d, withData=%v, once=%v, %s)", k, ki, wd, once, wrap), func() {
 								defer func() {
 									if x := recover(); x != nil {
 										got.panicv = fmt.Sprint(x)
 									}
 								}()
 								_, perr = parser.Parse(ctx, rd)
-							}()
+							})
 							if got.panicv != "" {
 								note(fmt.Sprintf("fail@%d kind=%d: panic %s", k, ki, got.panicv))
 								continue
